@@ -134,6 +134,21 @@ func checkChildRender(p *pwPath, invs []invocation, help, data ssa.Value) childR
 			}
 		}
 	}
+	// every entry the loop over the data visits is bound: a way round the loop that sets nothing (an entry skipped
+	// because the name is already visible in the child's chain) lets the caller's variable win over the data
+	if cr.ok && !cr.boundData {
+		for _, d := range p.decisions {
+			ex, isEx := d.cond.(*ssa.Extract)
+			if !isEx || ex.Index != 0 || !d.truth {
+				continue
+			}
+			if nx, isNx := ex.Tuple.(*ssa.Next); isNx {
+				if rg, isRg := nx.Iter.(*ssa.Range); isRg && canonValue(p, rg.X) == data {
+					cr.ok, cr.why = false, "an entry of the data is visited and not bound in the child scope (skipped under a condition): the block does not see the data it was called with"
+				}
+			}
+		}
+	}
 	return cr
 }
 
